@@ -1,6 +1,7 @@
 #!/bin/bash
 # tools/try_neutral.sh <diff>...   — apply each behaviour-preserving diff to a scratch worktree in turn and run ALL quick
 # checks against it: every line printed with ALARM is a false alarm to be looked at (translator too narrow, oracle too strict).
+V=${VERIF_ROOT:-/verif}
 W=${SEED_WT:-/var/tmp/wt-seedtest}
 export VERIF_EVIDENCE_DIR=/var/tmp/seed-evidence; mkdir -p $VERIF_EVIDENCE_DIR
 [ -d $W ] || git -C /repo worktree add --detach $W main -q
@@ -8,7 +9,7 @@ for D in "$@"; do
   (cd $W && git checkout -q --detach main && git reset -q --hard && git clean -qfd && git apply $D) || { echo "$D: patch does not apply"; continue; }
   T=$(cd $W && /venv/bin/python -m pytest -q -p no:cacheprovider -x 2>&1 | tail -1)
   echo "== $D: tests: $T"
-  cd /verif
+  cd $V
   for c in ${CHECKS:-$(cat tools/claimed.txt)}; do
     OUT=$(BOBOCEP_REPO=$W ./check $c 2>&1 | grep -v '^KNOWN' | tail -2 | cut -c1-300)
     if echo "$OUT" | grep -q "exit 0" && ! echo "$OUT" | grep -q VIOLATION; then :; else
@@ -19,6 +20,6 @@ for D in "$@"; do
   done
 done
 (cd $W && git reset -q --hard)
-cd /verif && PYTHONPATH=/repo:/verif /venv/bin/python -c "
+cd $V && PYTHONPATH=/repo:$V /venv/bin/python -c "
 from harness import core; import pkgutil, translate
 core.run_translators([m.name for m in pkgutil.iter_modules(translate.__path__) if m.name!='pyexpr'])" >/dev/null 2>&1
